@@ -76,7 +76,10 @@ MCCatalogue == <<
 (* block starts (in units of Block = 20 numbers): 0.00.., 0.40.., 0.80.., 9.80.., 99.80.., 999.80.., 1234.40..,
    9999.80.. *)
 QuickStarts == {0, 2, 4, 49, 499, 4999, 6172, 49999}
-ThoroughStarts == 0..500 \cup {b * 50 + 49 : b \in 10..999}
+RuleStarts == {0, 49, 4999, 6172}             \* enough for every rule (MC_NumFmt2_replay.cfg)
+(* thorough (Block = 50): 0.00 .. 9.99 contiguous, then 99.50.., 100.00.., 124.50.., 500.00.., 999.50.., 1000.00..,
+   1234.00.., 1234.50.., 4999.50.., 5000.00.., 9999.50.. *)
+ThoroughStarts == 0..19 \cup {199, 200, 249, 1000, 1999, 2000, 2468, 2469, 9999, 10000, 19999}
 
 (* a deviant design for the vacuity guard: literals are not rendered *)
 DevLit == {KLit}
